@@ -169,7 +169,7 @@ theorem decode_encode_reject (gmax pver : Nat) (hg : gmax < 2^64) (cmd : Bytes) 
     · rename_i hc; rw [if_pos hc] at h5; rw [bind_snd_ok (m := getHash) (getBytes_append hash 32 h5 rest)]; rfl
     · rename_i hc; rw [if_neg hc] at h5; subst h5; rfl
 
-theorem decode_encode_version (gmax pver : Nat) (hg : maxUserAgentLen ≤ gmax)
+theorem decode_encode_version (gmax pver : Nat)
     (pv sv ts : Nat) (you me : NetAddr) (nonce : Nat) (ua : Bytes) (lb : Nat) (nr : Bool)
     (wf : WF gmax pver (.version pv sv ts you me nonce ua lb nr)) :
     ∃ enc, encodePayload pver (.version pv sv ts you me nonce ua lb nr) = .ok enc ∧
@@ -186,7 +186,7 @@ theorem decode_encode_version (gmax pver : Nat) (hg : maxUserAgentLen ≤ gmax)
       remaining_pos_bind _ _ _ _ (putNetAddr_ne_nil _ _ _ _), bind_snd_ok (getNetAddr_put pver false me h5 _),
       remaining_pos_bind _ _ _ _ (put64le_ne_nil _ _), get64le_bind _ h6,
       remaining_pos_bind _ _ _ _ (by unfold putVarBytes; rw [List.append_assoc]; exact putVarInt_ne_nil _ _)]
-    rw [rd_bind_assoc, getVarBytes_bind gmax ua (by omega) hua]
+    rw [rd_bind_assoc, getVarBytes_bind maxUserAgentLen ua h7 hua]
     rw [if_neg (by omega), bind_snd_ok (pure_snd _ _)]
     rw [remaining_pos_bind _ _ _ _ (put32le_ne_nil _ _), get32le_bind _ h8]
     by_cases hp : bip0037Version ≤ pver
@@ -249,7 +249,7 @@ theorem decode_encode_protoconf (gmax pver nf mr : Nat) (wf : WF gmax pver (.pro
   · simp only [decodeRd]; rw [if_neg (by omega)]; rfl
 
 /-- decode(encode(m)) = m for every well-formed message of every modelled kind -/
-theorem decode_encode (gmax pver : Nat) (hg1 : maxUserAgentLen ≤ gmax) (hg2 : gmax < 2^64) (m : Msg)
+theorem decode_encode (gmax pver : Nat) (hg2 : gmax < 2^64) (m : Msg)
     (wf : WF gmax pver m) (enc : Bytes) (he : encodePayload pver m = .ok enc) :
     decodePayload gmax pver m.msgType enc = .ok m := by
   have fin : ∀ {t : MsgType} {enc' : Bytes}, encodePayload pver m = .ok enc' →
@@ -259,7 +259,7 @@ theorem decode_encode (gmax pver : Nat) (hg1 : maxUserAgentLen ≤ gmax) (hg2 : 
     have := h2 []; rwa [List.append_nil] at this
   cases m with
   | version pv sv ts you me nonce ua lb nr =>
-    obtain ⟨enc', h1, h2⟩ := decode_encode_version gmax pver hg1 pv sv ts you me nonce ua lb nr wf
+    obtain ⟨enc', h1, h2⟩ := decode_encode_version gmax pver pv sv ts you me nonce ua lb nr wf
     rw [he] at h1; injection h1 with h1; subst h1; exact h2
   | verack => obtain ⟨_, h1, h2⟩ := decode_encode_verack gmax pver; exact fin h1 h2
   | getaddr => obtain ⟨_, h1, h2⟩ := decode_encode_getaddr gmax pver; exact fin h1 h2
@@ -281,11 +281,11 @@ theorem decode_encode (gmax pver : Nat) (hg1 : maxUserAgentLen ≤ gmax) (hg2 : 
 /-- frame round trip for well-formed messages: what WriteMessage wrote, ReadMessage reads back,
     consuming exactly the frame -/
 theorem readMessage_writeMessage_wf (H : Bytes → Bytes) (hH : ∀ x, (H x).length = 32)
-    (gmax pver net : Nat) (hg1 : maxUserAgentLen ≤ gmax) (hg : gmax < 2^32) (hn : net < 2^32) (m : Msg)
+    (gmax pver net : Nat) (hg : gmax < 2^32) (hn : net < 2^32) (m : Msg)
     (wf : WF gmax pver m) (frame rest : Bytes) (hw : writeMessage H gmax pver net m = .ok frame) :
     readMessage H gmax pver net (frame ++ rest) = .ok (m, rest) :=
   readMessage_writeMessage H hH gmax pver net hg hn m frame rest hw
-    (fun enc he => decode_encode gmax pver hg1 (by omega) m wf enc he)
+    (fun enc he => decode_encode gmax pver (by omega) m wf enc he)
 
 /-! ## re-encoding: whatever bytes a decoder accepts, the decoded message is well-formed and its
 encoding is exactly the prefix of the input the decoder consumed (var-ints are canonical, the tx-count
@@ -637,30 +637,35 @@ theorem maxPayload_table :
 
 /-! ## allocation: the meter of the decoder model (every `make` sized by a length / count field)
 
+History: the full-strength per-type statement used to be false for `version` — `MsgVersion.Bsvdecode`
+read the user agent with ReadVarString (guard = the global maxMessagePayload(), 256 MiB) and checked
+MaxUserAgentLen only afterwards, so an 85-byte payload forced a 268,435,455-byte allocation against a
+declared limit of 358. This check found it (C14-F1, docs/findings/C14.md); /repo now reads the user agent
+with ReadVarBytes bounded by MaxUserAgentLen, the model follows, and `version` is covered by the
+per-type theorem; `version_inflated_rejected_without_allocation` is the old witness, now a regression fact.
+
 The full-strength per-type statement
 
     theorem alloc_bound_type (gmax pver t bs mpl) (hm : maxPayloadLength gmax pver t = some mpl) :
         ∀ a ∈ decodeAllocs gmax pver t bs, a ≤ mpl
 
-is FALSE for the unchanged code: `MsgVersion.Bsvdecode` reads the user agent with ReadVarString, whose
-guard is the global maxMessagePayload() (256 MiB under the service's SetLimits), and checks
-MaxUserAgentLen only afterwards — see `alloc_bound_type_version_counterexample` and docs/findings/C14.md.
-(Also false for `addr` below MultipleAddressVersion = 209, which the service never negotiates: the
-decoder allows 1000 entries where MaxPayloadLength allows one — `alloc_bound_type_addr_counterexample`.)
-Proved instead: the global strength for every type, and the per-type strength with those inputs excluded. -/
+remains false only for `addr` below MultipleAddressVersion = 209, which the service never negotiates
+(MinAcceptableProtocolVersion = 209): the decoder allows 1000 entries where MaxPayloadLength allows one —
+`alloc_bound_type_addr_counterexample`. Proved: the global strength for every type, and the per-type
+strength with exactly that input excluded. -/
 
 /-- global strength: no allocation of a payload decode exceeds maxMessagePayload(), whatever the bytes -/
 theorem alloc_bound_global (gmax pver : Nat) (hg : maxInvPerMsg * invVectSize ≤ gmax) (t : MsgType) (bs : Bytes) :
     ∀ a ∈ decodeAllocs gmax pver t bs, a ≤ gmax :=
   (allocsLe_decodeRd_global gmax pver hg t).le bs
 
-/-- per-type strength, excluding exactly `version` (and `addr` below protocol version 209): no allocation
-    of a payload decode exceeds the MaxPayloadLength the type declares, whatever the bytes -/
+/-- per-type strength for every type incl. `version`, excluding exactly `addr` below protocol version 209:
+    no allocation of a payload decode exceeds the MaxPayloadLength the type declares, whatever the bytes -/
 theorem alloc_bound_type_partial (gmax pver : Nat) (t : MsgType) (mpl : Nat) (bs : Bytes)
-    (hm : maxPayloadLength gmax pver t = some mpl) (hv : t ≠ .MsgVersion)
+    (hm : maxPayloadLength gmax pver t = some mpl)
     (ha : t = .MsgAddr → multipleAddressVersion ≤ pver) :
     ∀ a ∈ decodeAllocs gmax pver t bs, a ≤ mpl :=
-  (allocsLe_decodeRd_type gmax pver t mpl hm hv ha).le bs
+  (allocsLe_decodeRd_type gmax pver t mpl hm ha).le bs
 
 /-- frame level: every allocation of one ReadMessage (payload buffer ≤ the checked header length,
     discardInput's buffers, decoder allocations) is bounded by the global limit, on every input stream -/
@@ -671,13 +676,14 @@ theorem alloc_bound_frame (H : Bytes → Bytes) (gmax pver net : Nat) (hg : maxI
 /-- 85 bytes of `version` payload: 80 zero bytes, then a user-agent var-int that says 0x0FFFFFFF -/
 def versionInflated : Bytes := List.replicate 80 0 ++ [0xfe, 0xff, 0xff, 0xff, 0x0f]
 
-theorem alloc_bound_type_version_counterexample :
+/-- regression fact for the repaired defect C14-F1: the old witness payload is refused (`tooLong`)
+    with NO allocation, and `version` declares 358 bytes -/
+theorem version_inflated_rejected_without_allocation :
     maxPayloadLength serviceMaxPayload 70013 .MsgVersion = some 358 ∧
     versionInflated.length = 85 ∧
-    decodePayload serviceMaxPayload 70013 .MsgVersion versionInflated = .error .eof ∧
-    decodeAllocs serviceMaxPayload 70013 .MsgVersion versionInflated = [268435455] := by
+    decodePayload serviceMaxPayload 70013 .MsgVersion versionInflated = .error .tooLong ∧
+    decodeAllocs serviceMaxPayload 70013 .MsgVersion versionInflated = [] := by
   decide
-
 
 /-- `addr` at protocol version 208 (never negotiated): a 3-byte payload makes the decoder allocate 1000 entries -/
 theorem alloc_bound_type_addr_counterexample :
@@ -689,7 +695,7 @@ theorem alloc_bound_type_addr_counterexample :
 
 -- the global limit the service runs with (wire.SetLimits(config.ExcessiveBlockSize)) meets every side condition
 example : serviceMaxPayload = 268435456 := by decide
-example : maxUserAgentLen ≤ serviceMaxPayload ∧ serviceMaxPayload < 2^32 ∧ maxInvPerMsg * invVectSize ≤ serviceMaxPayload := by decide
+example : serviceMaxPayload < 2^32 ∧ maxInvPerMsg * invVectSize ≤ serviceMaxPayload := by decide
 -- SHA-256 (the hash the driver instantiates the frame layer with) meets the hash hypothesis
 example : ∀ x, (BHS.WireSha.sha256 x).length = 32 := BHS.WireSha.sha256_length
 -- well-formed messages of every kind exist (WF is decidable)
